@@ -260,6 +260,340 @@ var vC12CommitClasses = []string{
 	"disc-dest", "disc-own", "disc-name", "malformed", "retry",
 }
 
+// options of the observation generator (zero value + fill = -1: everything drawn at random)
+type vC12GenOpt struct {
+	bad    string // injected class; "" = drawn
+	fill   int    // 0..2; -1 = drawn
+	prefer uint64 // chain the injected / conformant fields should be about when possible; 0 = none
+	force  bool   // conformant chain subsets include prefer whenever the observer reads it
+}
+
+// one generated commit ValidateObservation case: observation of observer o under role map c, and the round it is validated in
+type vC12CommitCase struct {
+	o                                    int
+	bad                                  string
+	fill, prevType                       int
+	retry, sigs, rmnOn, discOn, initd    bool
+	qb, prevB, ob                        []byte
+	obsS                                 string
+	nfields, nunread                     int
+}
+
+func (cs *vC12CommitCase) rctx() string {
+	return cTup(cNi(cs.prevType), cBool(cs.sigs), cBool(cs.rmnOn), cBool(cs.discOn), cBool(cs.initd))
+}
+func (cs *vC12CommitCase) show(c *vC12Cfg, verdict string) map[string]any {
+	return map[string]any{"oracles": c.Oracles, "readers": c.Readers, "dest": c.Dest, "feed": c.Feed, "observer": cs.o,
+		"injected": cs.bad, "fill": cs.fill, "retry": cs.retry, "prev_outcome_type": cs.prevType, "rmn_signatures_in_query": cs.sigs,
+		"rmn_enabled": cs.rmnOn, "discovery_enabled": cs.discOn, "contracts_initialized": cs.initd,
+		"observation": string(cs.ob), "accepted": verdict}
+}
+func (cs *vC12CommitCase) verdict(ctx context.Context, p *Plugin) (v string) {
+	defer func() {
+		if e := recover(); e != nil {
+			v = "panic"
+		}
+	}()
+	if err := p.ValidateObservation(ctx, ocr3types.OutcomeContext{SeqNr: 7, PreviousOutcome: cs.prevB}, cs.qb,
+		types.AttributedObservation{Observation: cs.ob, Observer: commontypes.OracleID(cs.o)}); err != nil {
+		v = "false"
+	} else {
+		v = "true"
+	}
+	return v
+}
+
+func vC12GenCommitCase(t *testing.T, r *vRand, c *vC12Cfg, o int, tokens *vIntern, now time.Time, opt vC12GenOpt) *vC12CommitCase {
+	rd, unread := vC12ReadChains(c, o)
+	// opt.prefer: the chain the injected field / the conformant fields should be about when possible
+	pickUnread := func() uint64 {
+		x := vPick(r, unread)
+		for _, u := range unread {
+			if u == opt.prefer {
+				return u
+			}
+		}
+		return x
+	}
+	sub := func(xs []uint64) []uint64 {
+		out := vC12Subset(r, xs)
+		if !opt.force {
+			return out
+		}
+		for _, u := range out {
+			if u == opt.prefer {
+				return out
+			}
+		}
+		for _, u := range xs {
+			if u == opt.prefer {
+				return append(out, u)
+			}
+		}
+		return out
+	}
+	readsDest := c.known(o) && c.reads(o, c.Dest)
+	readsFeed := c.known(o) && c.reads(o, c.Feed)
+	bad := vPick(r, vC12CommitClasses)
+	fill := r.Intn(3) // 0: nothing but the injected field, 1: some conformant fields, 2: all conformant fields
+	if opt.bad != "" {
+		bad = opt.bad
+	}
+	if opt.fill >= 0 {
+		fill = opt.fill
+	}
+	want := func() bool { return fill == 2 || (fill == 1 && r.Bool()) }
+	malformed := bad == "malformed"
+	mal := func() bool { return malformed && r.Chance(1, 4) }
+
+	// ---- round context: the verdict is taken in every kind of round.
+	// previous merkle outcome type: 0 (no previous outcome), 1 ReportIntervalsSelected .. 6 ReportTransmissionFailed, 99 out of range;
+	// query: retry flag and / or RMN signatures present; RMN enabled or not; discovery processor present or not;
+	// contracts initialised or not.
+	prevType := vPick(r, []int{0, 1, 1, 2, 3, 4, 5, 6, 99})
+	retry := bad == "retry" || r.Chance(2, 5)
+	sigs := r.Chance(1, 3)
+	rmnOn := r.Bool()
+	discOn := !r.Chance(1, 5)
+	initd := r.Bool()
+	// in a retry round a non-empty merkle part is rejected as such: keep it empty most of the time so that the
+	// other validators decide
+	noMerkle := retry && r.Chance(3, 4)
+	wantM := func() bool { return !noMerkle && want() }
+
+	// ---- merkle root observation
+	var mo merkleroot.Observation
+	var roots, onr, offr []uint64
+	if wantM() {
+		roots = sub(rd)
+	}
+	if wantM() {
+		onr = sub(rd)
+	}
+	if wantM() && readsDest {
+		offr = vC12Subset(r, []uint64{5, 6, 11})
+	}
+	switch bad {
+	case "roots":
+		roots = append(roots, pickUnread())
+	case "onramp":
+		onr = append(onr, pickUnread())
+	case "offramp":
+		offr = append(offr, vPick(r, []uint64{5, 6}))
+	}
+	if mal() && len(roots) > 0 {
+		roots = append(roots, roots[0])
+	}
+	if mal() && len(onr) > 0 {
+		onr = append(onr, onr[0])
+	}
+	if mal() && len(offr) > 0 {
+		offr = append(offr, offr[0])
+	}
+	for _, ch := range roots {
+		mo.MerkleRoots = append(mo.MerkleRoots, cciptypes.MerkleRootChain{ChainSel: cciptypes.ChainSelector(ch),
+			OnRampAddress: []byte{1}, SeqNumsRange: cciptypes.NewSeqNumRange(1, 2), MerkleRoot: cciptypes.Bytes32{byte(ch)}})
+	}
+	for _, ch := range onr {
+		mo.OnRampMaxSeqNums = append(mo.OnRampMaxSeqNums, plugintypes.SeqNumChain{ChainSel: cciptypes.ChainSelector(ch), SeqNum: 9})
+	}
+	for _, ch := range offr {
+		mo.OffRampNextSeqNums = append(mo.OffRampNextSeqNums, plugintypes.SeqNumChain{ChainSel: cciptypes.ChainSelector(ch), SeqNum: 3})
+	}
+	rmnS := "rmn_none"
+	if (wantM() && readsDest) || bad == "rmncfg" {
+		nsig := r.Range(1, 3)
+		rc := rmntypes.RemoteConfig{ContractAddress: []byte{7}, ConfigDigest: cciptypes.Bytes32{1}, F: uint64(r.Range(0, nsig-1)),
+			ConfigVersion: 1, RmnReportVersion: cciptypes.Bytes32{2}}
+		if bad == "rmncfg" && r.Chance(1, 3) {
+			// boundary: a config that is non-empty only because of one field
+			rc = rmntypes.RemoteConfig{F: 1}
+			nsig = 0
+		}
+		for k := 0; k < nsig; k++ {
+			rc.Signers = append(rc.Signers, rmntypes.RemoteSignerInfo{OnchainPublicKey: []byte{byte(k + 1)}, NodeIndex: uint64(k)})
+		}
+		if mal() {
+			switch r.Intn(6) {
+			case 0:
+				rc.ConfigDigest = cciptypes.Bytes32{}
+			case 1:
+				rc.RmnReportVersion = cciptypes.Bytes32{}
+			case 2:
+				rc.F = uint64(nsig)
+			case 3:
+				rc.ContractAddress = nil
+			case 4:
+				rc.Signers[0].OnchainPublicKey = nil
+			default:
+				rc.Signers = append(rc.Signers, rc.Signers[0])
+			}
+		}
+		mo.RMNRemoteConfig = rc
+		sg := make([]string, len(rc.Signers))
+		for k, s := range rc.Signers {
+			sg[k] = cPair(cBool(len(s.OnchainPublicKey) == 0), cN(s.NodeIndex))
+		}
+		rmnS = cApp("mkRmn", cBool(len(rc.ContractAddress) == 0), cBool(rc.ConfigDigest == cciptypes.Bytes32{}), cList(sg),
+			cN(rc.F), cBool(rc.ConfigVersion == 0), cBool(rc.RmnReportVersion == cciptypes.Bytes32{}))
+	}
+	mfcS := "[]"
+	if wantM() || len(roots)+len(onr)+len(offr) > 0 {
+		mo.FChain, mfcS = vC12FChain(r, c, mal())
+	}
+	moS := cApp("mkMobs", cListN(roots), cListN(onr), cListN(offr), rmnS, mfcS)
+
+	// ---- token price observation
+	var to tokenprice.Observation
+	var feedS []string
+	var fqS []string
+	nfeed := 0
+	if (want() && readsFeed) || bad == "feed" {
+		nfeed = r.Range(1, 3)
+	}
+	for k := 0; k < nfeed; k++ {
+		id := "tok" + string(rune('A'+k))
+		if mal() && k > 0 {
+			id = "tokA"
+		}
+		p := cciptypes.NewBigIntFromInt64(int64(100 + k))
+		if mal() {
+			p = cciptypes.BigInt{}
+		}
+		to.FeedTokenPrices = append(to.FeedTokenPrices, cciptypes.TokenPrice{TokenID: cciptypes.UnknownEncodedAddress(id), Price: p})
+		feedS = append(feedS, cPair(cN(tokens.Id(id)), cBool(p.Int == nil)))
+	}
+	if (want() && readsDest) || bad == "fq" {
+		to.FeeQuoterTokenUpdates = map[cciptypes.UnknownEncodedAddress]plugintypes.TimestampedBig{}
+		for k := 0; k < r.Range(1, 2); k++ {
+			id := "tok" + string(rune('A'+k))
+			to.FeeQuoterTokenUpdates[cciptypes.UnknownEncodedAddress(id)] = plugintypes.TimestampedBig{Timestamp: now, Value: cciptypes.NewBigIntFromInt64(5)}
+			fqS = append(fqS, cN(tokens.Id(id)))
+		}
+	}
+	tfcS := "[]"
+	if want() || nfeed > 0 || len(fqS) > 0 {
+		to.FChain, tfcS = vC12FChain(r, c, mal())
+		to.Timestamp = now
+	}
+	toS := cApp("mkTobs", cList(feedS), cList(fqS), tfcS)
+
+	// ---- chain fee observation
+	var fo chainfee.Observation
+	var comp, nat, upd []uint64
+	if want() {
+		comp = sub(rd)
+	}
+	if want() {
+		nat = sub(rd)
+	}
+	if want() && readsDest {
+		upd = vC12Subset(r, c.Chains)
+	}
+	switch bad {
+	case "feecomp":
+		comp = append(comp, pickUnread())
+	case "native":
+		nat = append(nat, pickUnread())
+	case "chainfeeupd":
+		upd = append(upd, vPick(r, []uint64{5, 6}))
+		upd = vC12Dedup(upd)
+	}
+	comp, nat = vC12Dedup(comp), vC12Dedup(nat)
+	var compS, natS []string
+	optZ := func(b *big.Int) string {
+		if b == nil {
+			return "None"
+		}
+		return cSome(cZb(b))
+	}
+	if len(comp) > 0 {
+		fo.FeeComponents = map[cciptypes.ChainSelector]cctypes.ChainFeeComponents{}
+	}
+	for _, ch := range comp {
+		ex, da := big.NewInt(int64(r.Range(1, 9))), big.NewInt(int64(r.Range(0, 3)))
+		if mal() {
+			switch r.Intn(4) {
+			case 0:
+				ex = nil
+			case 1:
+				ex = big.NewInt(0)
+			case 2:
+				da = nil
+			default:
+				da = big.NewInt(-1)
+			}
+		}
+		fo.FeeComponents[cciptypes.ChainSelector(ch)] = cctypes.ChainFeeComponents{ExecutionFee: ex, DataAvailabilityFee: da}
+		compS = append(compS, cPair(cN(ch), cPair(optZ(ex), optZ(da))))
+	}
+	if len(nat) > 0 {
+		fo.NativeTokenPrices = map[cciptypes.ChainSelector]cciptypes.BigInt{}
+	}
+	for _, ch := range nat {
+		p := big.NewInt(int64(r.Range(1, 9)))
+		if mal() {
+			if r.Bool() {
+				p = nil
+			} else {
+				p = big.NewInt(0)
+			}
+		}
+		fo.NativeTokenPrices[cciptypes.ChainSelector(ch)] = cciptypes.BigInt{Int: p}
+		natS = append(natS, cPair(cN(ch), optZ(p)))
+	}
+	if len(upd) > 0 {
+		fo.ChainFeeUpdates = map[cciptypes.ChainSelector]chainfee.Update{}
+	}
+	for _, ch := range upd {
+		fo.ChainFeeUpdates[cciptypes.ChainSelector(ch)] = chainfee.Update{Timestamp: now,
+			ChainFee: chainfee.ComponentsUSDPrices{ExecutionFeePriceUSD: big.NewInt(3), DataAvFeePriceUSD: big.NewInt(1)}}
+	}
+	ffcS := "[]"
+	if want() || len(comp)+len(nat)+len(upd) > 0 {
+		fo.FChain, ffcS = vC12FChain(r, c, mal())
+		fo.TimestampNow = now
+	}
+	foS := cApp("mkFobs", cList(compS), cList(natS), cListN(upd), ffcS)
+
+	// ---- discovery + top level
+	ca, dS := vC12Disc(r, c, rd, readsDest, fill, bad, unread)
+	obs := Observation{MerkleRootObs: mo, TokenPriceObs: to, ChainFeeObs: fo, DiscoveryObs: dt.Observation{Addresses: ca}}
+	fcS := "[]"
+	if fill > 0 || r.Bool() {
+		obs.FChain, fcS = vC12FChain(r, c, mal())
+		obs.DiscoveryObs.FChain = obs.FChain
+	}
+	q := Query{MerkleRootQuery: merkleroot.Query{RetryRMNSignatures: retry}}
+	if sigs {
+		q.MerkleRootQuery.RMNSignatures = &rmn.ReportSignatures{}
+	}
+	qb, err := q.Encode()
+	if err != nil {
+		t.Fatal(err)
+	}
+	var prevB []byte
+	if prevType != 0 {
+		prev := Outcome{MerkleRootOutcome: merkleroot.Outcome{OutcomeType: merkleroot.OutcomeType(prevType)}}
+		if prevType == 1 {
+			prev.MerkleRootOutcome.RangesSelectedForReport = []plugintypes.ChainRange{{ChainSel: 5, SeqNumRange: cciptypes.NewSeqNumRange(10, 12)}}
+		}
+		if prevB, err = prev.Encode(); err != nil {
+			t.Fatal(err)
+		}
+	}
+	ob, err := obs.Encode()
+	if err != nil {
+		t.Fatal(err)
+	}
+	nfields := len(roots) + len(onr) + len(offr) + nfeed + len(fqS) + len(comp) + len(nat) + len(upd) + len(ca)
+	if rmnS != "rmn_none" {
+		nfields++
+	}
+	return &vC12CommitCase{o: o, bad: bad, fill: fill, prevType: prevType, retry: retry, sigs: sigs, rmnOn: rmnOn, discOn: discOn, initd: initd,
+		qb: qb, prevB: prevB, ob: ob, obsS: cApp("mkCobs", moS, toS, foS, dS, fcS), nfields: nfields, nunread: len(unread)}
+}
+
 func TestVerif_C12_commit(t *testing.T) {
 	ctx := context.Background()
 	r := vNewRand(vSeed() + 1201)
@@ -271,286 +605,18 @@ func TestVerif_C12_commit(t *testing.T) {
 	for i := 0; i < n; i++ {
 		c := vC12GenCfg(r)
 		o := c.pickObserver(r)
-		rd, unread := vC12ReadChains(c, o)
-		readsDest := c.known(o) && c.reads(o, c.Dest)
-		readsFeed := c.known(o) && c.reads(o, c.Feed)
-		bad := vPick(r, vC12CommitClasses)
-		fill := r.Intn(3) // 0: nothing but the injected field, 1: some conformant fields, 2: all conformant fields
-		want := func() bool { return fill == 2 || (fill == 1 && r.Bool()) }
-		malformed := bad == "malformed"
-		mal := func() bool { return malformed && r.Chance(1, 4) }
-
-		// ---- round context: the verdict is taken in every kind of round.
-		// previous merkle outcome type: 0 (no previous outcome), 1 ReportIntervalsSelected .. 6 ReportTransmissionFailed, 99 out of range;
-		// query: retry flag and / or RMN signatures present; RMN enabled or not; discovery processor present or not;
-		// contracts initialised or not.
-		prevType := vPick(r, []int{0, 1, 1, 2, 3, 4, 5, 6, 99})
-		retry := bad == "retry" || r.Chance(2, 5)
-		sigs := r.Chance(1, 3)
-		rmnOn := r.Bool()
-		discOn := !r.Chance(1, 5)
-		initd := r.Bool()
-		// in a retry round a non-empty merkle part is rejected as such: keep it empty most of the time so that the
-		// other validators decide
-		noMerkle := retry && r.Chance(3, 4)
-		wantM := func() bool { return !noMerkle && want() }
-
-		// ---- merkle root observation
-		var mo merkleroot.Observation
-		var roots, onr, offr []uint64
-		if wantM() {
-			roots = vC12Subset(r, rd)
-		}
-		if wantM() {
-			onr = vC12Subset(r, rd)
-		}
-		if wantM() && readsDest {
-			offr = vC12Subset(r, []uint64{5, 6, 11})
-		}
-		switch bad {
-		case "roots":
-			roots = append(roots, vPick(r, unread))
-		case "onramp":
-			onr = append(onr, vPick(r, unread))
-		case "offramp":
-			offr = append(offr, vPick(r, []uint64{5, 6}))
-		}
-		if mal() && len(roots) > 0 {
-			roots = append(roots, roots[0])
-		}
-		if mal() && len(onr) > 0 {
-			onr = append(onr, onr[0])
-		}
-		if mal() && len(offr) > 0 {
-			offr = append(offr, offr[0])
-		}
-		for _, ch := range roots {
-			mo.MerkleRoots = append(mo.MerkleRoots, cciptypes.MerkleRootChain{ChainSel: cciptypes.ChainSelector(ch),
-				OnRampAddress: []byte{1}, SeqNumsRange: cciptypes.NewSeqNumRange(1, 2), MerkleRoot: cciptypes.Bytes32{byte(ch)}})
-		}
-		for _, ch := range onr {
-			mo.OnRampMaxSeqNums = append(mo.OnRampMaxSeqNums, plugintypes.SeqNumChain{ChainSel: cciptypes.ChainSelector(ch), SeqNum: 9})
-		}
-		for _, ch := range offr {
-			mo.OffRampNextSeqNums = append(mo.OffRampNextSeqNums, plugintypes.SeqNumChain{ChainSel: cciptypes.ChainSelector(ch), SeqNum: 3})
-		}
-		rmnS := "rmn_none"
-		if (wantM() && readsDest) || bad == "rmncfg" {
-			nsig := r.Range(1, 3)
-			rc := rmntypes.RemoteConfig{ContractAddress: []byte{7}, ConfigDigest: cciptypes.Bytes32{1}, F: uint64(r.Range(0, nsig-1)),
-				ConfigVersion: 1, RmnReportVersion: cciptypes.Bytes32{2}}
-			if bad == "rmncfg" && r.Chance(1, 3) {
-				// boundary: a config that is non-empty only because of one field
-				rc = rmntypes.RemoteConfig{F: 1}
-				nsig = 0
-			}
-			for k := 0; k < nsig; k++ {
-				rc.Signers = append(rc.Signers, rmntypes.RemoteSignerInfo{OnchainPublicKey: []byte{byte(k + 1)}, NodeIndex: uint64(k)})
-			}
-			if mal() {
-				switch r.Intn(6) {
-				case 0:
-					rc.ConfigDigest = cciptypes.Bytes32{}
-				case 1:
-					rc.RmnReportVersion = cciptypes.Bytes32{}
-				case 2:
-					rc.F = uint64(nsig)
-				case 3:
-					rc.ContractAddress = nil
-				case 4:
-					rc.Signers[0].OnchainPublicKey = nil
-				default:
-					rc.Signers = append(rc.Signers, rc.Signers[0])
-				}
-			}
-			mo.RMNRemoteConfig = rc
-			sg := make([]string, len(rc.Signers))
-			for k, s := range rc.Signers {
-				sg[k] = cPair(cBool(len(s.OnchainPublicKey) == 0), cN(s.NodeIndex))
-			}
-			rmnS = cApp("mkRmn", cBool(len(rc.ContractAddress) == 0), cBool(rc.ConfigDigest == cciptypes.Bytes32{}), cList(sg),
-				cN(rc.F), cBool(rc.ConfigVersion == 0), cBool(rc.RmnReportVersion == cciptypes.Bytes32{}))
-		}
-		mfcS := "[]"
-		if wantM() || len(roots)+len(onr)+len(offr) > 0 {
-			mo.FChain, mfcS = vC12FChain(r, c, mal())
-		}
-		moS := cApp("mkMobs", cListN(roots), cListN(onr), cListN(offr), rmnS, mfcS)
-
-		// ---- token price observation
-		var to tokenprice.Observation
-		var feedS []string
-		var fqS []string
-		nfeed := 0
-		if (want() && readsFeed) || bad == "feed" {
-			nfeed = r.Range(1, 3)
-		}
-		for k := 0; k < nfeed; k++ {
-			id := "tok" + string(rune('A'+k))
-			if mal() && k > 0 {
-				id = "tokA"
-			}
-			p := cciptypes.NewBigIntFromInt64(int64(100 + k))
-			if mal() {
-				p = cciptypes.BigInt{}
-			}
-			to.FeedTokenPrices = append(to.FeedTokenPrices, cciptypes.TokenPrice{TokenID: cciptypes.UnknownEncodedAddress(id), Price: p})
-			feedS = append(feedS, cPair(cN(tokens.Id(id)), cBool(p.Int == nil)))
-		}
-		if (want() && readsDest) || bad == "fq" {
-			to.FeeQuoterTokenUpdates = map[cciptypes.UnknownEncodedAddress]plugintypes.TimestampedBig{}
-			for k := 0; k < r.Range(1, 2); k++ {
-				id := "tok" + string(rune('A'+k))
-				to.FeeQuoterTokenUpdates[cciptypes.UnknownEncodedAddress(id)] = plugintypes.TimestampedBig{Timestamp: now, Value: cciptypes.NewBigIntFromInt64(5)}
-				fqS = append(fqS, cN(tokens.Id(id)))
-			}
-		}
-		tfcS := "[]"
-		if want() || nfeed > 0 || len(fqS) > 0 {
-			to.FChain, tfcS = vC12FChain(r, c, mal())
-			to.Timestamp = now
-		}
-		toS := cApp("mkTobs", cList(feedS), cList(fqS), tfcS)
-
-		// ---- chain fee observation
-		var fo chainfee.Observation
-		var comp, nat, upd []uint64
-		if want() {
-			comp = vC12Subset(r, rd)
-		}
-		if want() {
-			nat = vC12Subset(r, rd)
-		}
-		if want() && readsDest {
-			upd = vC12Subset(r, c.Chains)
-		}
-		switch bad {
-		case "feecomp":
-			comp = append(comp, vPick(r, unread))
-		case "native":
-			nat = append(nat, vPick(r, unread))
-		case "chainfeeupd":
-			upd = append(upd, vPick(r, []uint64{5, 6}))
-			upd = vC12Dedup(upd)
-		}
-		comp, nat = vC12Dedup(comp), vC12Dedup(nat)
-		var compS, natS []string
-		optZ := func(b *big.Int) string {
-			if b == nil {
-				return "None"
-			}
-			return cSome(cZb(b))
-		}
-		if len(comp) > 0 {
-			fo.FeeComponents = map[cciptypes.ChainSelector]cctypes.ChainFeeComponents{}
-		}
-		for _, ch := range comp {
-			ex, da := big.NewInt(int64(r.Range(1, 9))), big.NewInt(int64(r.Range(0, 3)))
-			if mal() {
-				switch r.Intn(4) {
-				case 0:
-					ex = nil
-				case 1:
-					ex = big.NewInt(0)
-				case 2:
-					da = nil
-				default:
-					da = big.NewInt(-1)
-				}
-			}
-			fo.FeeComponents[cciptypes.ChainSelector(ch)] = cctypes.ChainFeeComponents{ExecutionFee: ex, DataAvailabilityFee: da}
-			compS = append(compS, cPair(cN(ch), cPair(optZ(ex), optZ(da))))
-		}
-		if len(nat) > 0 {
-			fo.NativeTokenPrices = map[cciptypes.ChainSelector]cciptypes.BigInt{}
-		}
-		for _, ch := range nat {
-			p := big.NewInt(int64(r.Range(1, 9)))
-			if mal() {
-				if r.Bool() {
-					p = nil
-				} else {
-					p = big.NewInt(0)
-				}
-			}
-			fo.NativeTokenPrices[cciptypes.ChainSelector(ch)] = cciptypes.BigInt{Int: p}
-			natS = append(natS, cPair(cN(ch), optZ(p)))
-		}
-		if len(upd) > 0 {
-			fo.ChainFeeUpdates = map[cciptypes.ChainSelector]chainfee.Update{}
-		}
-		for _, ch := range upd {
-			fo.ChainFeeUpdates[cciptypes.ChainSelector(ch)] = chainfee.Update{Timestamp: now,
-				ChainFee: chainfee.ComponentsUSDPrices{ExecutionFeePriceUSD: big.NewInt(3), DataAvFeePriceUSD: big.NewInt(1)}}
-		}
-		ffcS := "[]"
-		if want() || len(comp)+len(nat)+len(upd) > 0 {
-			fo.FChain, ffcS = vC12FChain(r, c, mal())
-			fo.TimestampNow = now
-		}
-		foS := cApp("mkFobs", cList(compS), cList(natS), cListN(upd), ffcS)
-
-		// ---- discovery + top level
-		ca, dS := vC12Disc(r, c, rd, readsDest, fill, bad, unread)
-		obs := Observation{MerkleRootObs: mo, TokenPriceObs: to, ChainFeeObs: fo, DiscoveryObs: dt.Observation{Addresses: ca}}
-		fcS := "[]"
-		if fill > 0 || r.Bool() {
-			obs.FChain, fcS = vC12FChain(r, c, mal())
-			obs.DiscoveryObs.FChain = obs.FChain
-		}
-		q := Query{MerkleRootQuery: merkleroot.Query{RetryRMNSignatures: retry}}
-		if sigs {
-			q.MerkleRootQuery.RMNSignatures = &rmn.ReportSignatures{}
-		}
-		qb, err := q.Encode()
-		if err != nil {
-			t.Fatal(err)
-		}
-		var prevB []byte
-		if prevType != 0 {
-			prev := Outcome{MerkleRootOutcome: merkleroot.Outcome{OutcomeType: merkleroot.OutcomeType(prevType)}}
-			if prevType == 1 {
-				prev.MerkleRootOutcome.RangesSelectedForReport = []plugintypes.ChainRange{{ChainSel: 5, SeqNumRange: cciptypes.NewSeqNumRange(10, 12)}}
-			}
-			if prevB, err = prev.Encode(); err != nil {
-				t.Fatal(err)
-			}
-		}
-		ob, err := obs.Encode()
-		if err != nil {
-			t.Fatal(err)
-		}
-		p := vC12Plugin(c, vPick(r, c.Oracles), rmnOn)
-		if !discOn {
+		cs := vC12GenCommitCase(t, r, c, o, tokens, now, vC12GenOpt{fill: -1})
+		p := vC12Plugin(c, vPick(r, c.Oracles), cs.rmnOn)
+		if !cs.discOn {
 			p.discoveryProcessor = nil
 		}
-		p.contractsInitialized.Store(initd)
-		verdict := func() (v string) {
-			defer func() {
-				if e := recover(); e != nil {
-					v = "panic"
-				}
-			}()
-			if err := p.ValidateObservation(ctx, ocr3types.OutcomeContext{SeqNr: 7, PreviousOutcome: prevB}, qb,
-				types.AttributedObservation{Observation: ob, Observer: commontypes.OracleID(o)}); err != nil {
-				return "false"
-			}
-			return "true"
-		}()
+		p.contractsInitialized.Store(cs.initd)
+		verdict := cs.verdict(ctx, p)
 		if verdict == "panic" {
 			t.Fatalf("ValidateObservation panicked on case %d", i)
 		}
-		rctx := cTup(cNi(prevType), cBool(sigs), cBool(rmnOn), cBool(discOn), cBool(initd))
-		in := cTup(c.coq(), rctx, cBool(retry), cNi(o), cApp("mkCobs", moS, toS, foS, dS, fcS))
-		nfields := len(roots) + len(onr) + len(offr) + nfeed + len(fqS) + len(comp) + len(nat) + len(upd) + len(ca)
-		if rmnS != "rmn_none" {
-			nfields++
-		}
-		sink.Emit("C12_commit", bad, nfields > 0 && len(unread) > 1, cPair(in, verdict),
-			map[string]any{"oracles": c.Oracles, "readers": c.Readers, "dest": c.Dest, "feed": c.Feed, "observer": o,
-				"injected": bad, "fill": fill, "retry": retry, "prev_outcome_type": prevType, "rmn_signatures_in_query": sigs,
-				"rmn_enabled": rmnOn, "discovery_enabled": discOn, "contracts_initialized": initd,
-				"observation": string(ob), "accepted": verdict})
+		in := cTup(c.coq(), cs.rctx(), cBool(cs.retry), cNi(o), cs.obsS)
+		sink.Emit("C12_commit", cs.bad, cs.nfields > 0 && cs.nunread > 1, cPair(in, verdict), cs.show(c, verdict))
 	}
 }
 
